@@ -471,3 +471,26 @@ SPECS["C07"].thorough_extra = SPECS["C07"].thorough_extra + prims_strings("C07")
 SPECS["C07"].assumptions = SPECS["C07"].assumptions + PRIMS_STRINGS_ASSUME
 SPECS["C07"].modelled = SPECS["C07"].modelled + ["package strings (HasPrefix HasSuffix TrimPrefix TrimSuffix Index Cut Split Join TrimLeft), string <, indexing/slicing panics, uint64/int32 arithmetic, strconv.Atoi: Lib/GoStrings.v + Model/SshdProc.atoi, hand-written, tied by stage prims -mode strings"]
 SPECS["C07"].extra_targets = SPECS["C07"].extra_targets + ["Model/PrimsCheck.vo"]
+
+
+# Group K: time.Ticker and the consumption of its ticks by Auditd.Read's select loop are inside the model (Model/Ticker.v;
+# theorems C16_ticker_* in Props/C16.v); stage harness/ticker (both tiers) ties the ticker model to the real time.Ticker.
+SPECS["C16"].thorough_extra = SPECS["C16"].thorough_extra + [
+    ("ticker", {}, ["-n", "384", "-par", "24"], False, ["-n", "24", "-par", "24"])]
+SPECS["C16"].extra_targets = SPECS["C16"].extra_targets + ["Model/TickerCheck.vo"]
+SPECS["C16"].assumptions = SPECS["C16"].assumptions + [
+    "time.Ticker is inside the model (Model/Ticker.v): period I, start T0, at every T0 + k*I (k >= 1) a NON-BLOCKING send into a channel of capacity 1 (delivered if the slot is "
+    "empty, dropped otherwise); the consumer is Read's loop given as the sorted list of instants at which it is at its select (an idle loop is free at the tick's own instant; "
+    "frees_of_busy derives the list from busy intervals); a consumed tick runs the tick arm AS GENERATED in Gen/AuditProg.v at clock reading c = its consumption time "
+    "(C16_ticker_cleanups_from_source: for the generated Read that is both sweeps with cut-off c - I, I the generated ticker period). Proved for every period, start and "
+    "schedule: C16_ticker_* (closed form, one buffered tick, consumption at or after the tick's instant and before the next delivered tick's, liveness within d, keeps for every "
+    "cleanup at c <= a + I, drops by a cleanup in (a + I, a + 2I + d), the previous-cleanup cut-off refuted)",
+    "what stays assumed about the real ticker - that the runtime sends at T0 + k*I without drift and never blocks - is exercised by stage ticker on every run: real "
+    "time.NewTicker(40-120 ms) against scripted busy patterns (no stall, 0.5 / 1.5 / 2.5 / 5.5 periods, back-to-back, from before the first tick), delivered and lost tick "
+    "indices and receive times compared in Coq with consumed / dropped (Model/TickerCheck.v), oracle without the model; the harness is built inside /repo's module (go 1.19 in "
+    "go.mod => asynchronous timer channels, the implementation the daemon runs; the go >= 1.23 synchronous implementation has the same observable contract but is not exercised); "
+    "time.Now() in the arm is read at the consumption time (the arm's own run time before the call is not modelled); which other arm a select with several ready channels takes "
+    "is part of the schedule (any instant at which the tick arm is not taken is simply not a free instant)"]
+SPECS["C16"].modelled = SPECS["C16"].modelled + [
+    "$GOROOT/src/time/tick.go + sleep.go (NewTicker, the periodic timer's sendTime: non-blocking send into a capacity-1 channel): Model/Ticker.v, hand-written, tied by the ticker stage",
+    "Auditd.Read's consumption of the ticks: Model/Ticker.v run / consumed / cleanup_ops_gen (interprets the generated tick arm of Gen/AuditProg.v)"]
